@@ -224,7 +224,8 @@ def peak_definition(repo, rep):
     for name, st in assigns.items():
         v = st.value
         names = {n.id for n in ast.walk(v) if isinstance(n, ast.Name)}
-        if {fwd[0], bwd[0]} <= names and name not in sides:
+        if {fwd[0], bwd[0]} <= names and name not in sides and not any(
+                isinstance(c, ast.Call) and isinstance(c.func, ast.Attribute) and c.func.attr in ("argmax", "where") for c in ast.walk(v)):
             conj = (name, st)
     if conj is None:
         # may be inlined in the return
@@ -238,8 +239,12 @@ def peak_definition(repo, rep):
                      "a peak needs BOTH neighbour tests (conjunction); any other combination admits non-peaks")
         else:
             rep.ok("R-C02-2", f"{fi.file}:{conj[1].lineno} _peak", unparse(conj[1])[:100], "conjunction of both strict tests")
-    # --- return: arr.where(ispeak, 0).argmax(dim=freq)
-    r, _ = _strip_casts(ret.value)
+    # --- return: arr.where(ispeak, 0).argmax(dim=freq)   (possibly through a temporary)
+    from ..astutil import resolve
+    rv = ret.value
+    if isinstance(rv, ast.Name) and rv.id in assigns and rv.id not in sides and (conj is None or rv.id != conj[0]):
+        rv = assigns[rv.id].value
+    r, _ = _strip_casts(rv)
     if not (isinstance(r, ast.Call) and isinstance(r.func, ast.Attribute) and r.func.attr == "argmax"):
         raise AnalysisError("_peak: return is not an argmax")
     if not (is_freq(kwarg(r, "dim")) or (r.args and is_freq(r.args[0]))):
@@ -323,7 +328,14 @@ def nan_guards(repo, rep):
                 br = s.body
             elif t in (p0, f"{p0} != 0", f"{p0} > 0"):
                 br = s.orelse
-            if br and len(br) == 1 and isinstance(br[0], ast.Return) and unparse(br[0].value) in ("np.nan", "numpy.nan", "float('nan')", "nan", "np.float32(np.nan)"):
+            nanret = False
+            if br and isinstance(br[-1], ast.Return) and br[-1].value is not None and len(br) <= 2:
+                from ..astutil import resolve
+                rv = br[-1].value
+                if isinstance(rv, ast.Name) and len(br) == 2 and isinstance(br[0], ast.Assign) and unparse(br[0].targets[0]) == rv.id:
+                    rv = br[0].value
+                nanret = (len(br) == 1 or rv is br[0].value) and unparse(rv) in ("np.nan", "numpy.nan", "float('nan')", "nan", "np.float32(np.nan)")
+            if nanret:
                 ok = True
                 rep.ok("R-C02-3", f"{fi.file}:{s.lineno} {fi.short}", f"if {t}: return NaN", "no interior peak -> NaN, never another bin")
         if not ok:
@@ -338,10 +350,9 @@ def nan_guards(repo, rep):
             rep.fail("R-C02-5", fi.file, n.lineno, fi.qualname, f"if {unparse(n.test)}: ...",
                      "dp's index is the arg-max over directions, where 0 is a valid position: a 'no peak' guard turns "
                      "spectra peaking in the first stored direction into NaN")
-    rets = [n for n in ast.walk(fi.node) if isinstance(n, ast.Return)]
+    from ..astutil import returns as _returns
     good = True
-    for r in rets:
-        v = r.value
+    for r, v in _returns(fi.node):
         while isinstance(v, ast.Call) and len(v.args) == 1:
             v = v.args[0]
         if not (isinstance(v, ast.Subscript) and isinstance(v.value, ast.Name) and v.value.id == fi.params[1] and unparse(v.slice) == p0):
@@ -415,14 +426,14 @@ def gamma_peak_density(repo, rep):
     found = False
     for n in ast.walk(fi.node):
         if isinstance(n, ast.BinOp) and isinstance(n.op, ast.Div):
-            num = n.left
-            names = {x.id for x in ast.walk(n.right) if isinstance(x, ast.Name)}
+            from ..astutil import resolve
+            num = resolve(fi.node, n.left, before=n.lineno + 1)
             if isinstance(num, ast.Call) and isinstance(num.func, ast.Attribute):
                 m = num.func.attr
                 txt = unparse(n)[:120]
                 if m == "max":
                     found = True
-                    rep.fail("R-C02-4", fi.file, n.lineno, fi.qualname, txt,
+                    rep.fail("R-C02-4", fi.file, n.lineno, fi.qualname, txt, anchor="gamma:global-max-of-E(f)", reason=
                              "gamma divides the GLOBAL maximum of E(f) by the PM density at fp; when the largest value sits on "
                              "the first/last frequency while fp comes from the interior peak these are different bins")
                 elif m in ("isel", "sel", "interp"):
